@@ -56,6 +56,8 @@ pub struct BrokerAdapter {
     pub seq: Arc<AtomicU64>,
     pub calls: Arc<parking_lot::Mutex<Vec<BrokerCall>>>,
     pub fault: Arc<parking_lot::RwLock<Option<Arc<dyn BrokerFault>>>>,
+    /// every descriptor the broker accepted a commit for (replayed later as stale duplicates)
+    pub committed: Arc<parking_lot::Mutex<Vec<MigrationTaskMeta>>>,
 }
 
 fn http_class(code: &str) -> u16 {
@@ -87,6 +89,7 @@ impl BrokerAdapter {
             seq: Arc::new(AtomicU64::new(1)),
             calls: Default::default(),
             fault: Default::default(),
+            committed: Default::default(),
         }
     }
 
@@ -98,6 +101,7 @@ impl BrokerAdapter {
             seq: self.seq.clone(),
             calls: self.calls.clone(),
             fault: self.fault.clone(),
+            committed: self.committed.clone(),
         }
     }
 
@@ -285,7 +289,10 @@ impl MetaManipulationBroker for BrokerAdapter {
             if d == BrokerFaultAction::FailBefore {
                 return Err(MetaManipulationBrokerError::RequestFailed);
             }
-            let r = self.svc.commit_migration(meta).await;
+            let r = self.svc.commit_migration(meta.clone()).await;
+            if r.is_ok() {
+                self.committed.lock().push(meta);
+            }
             let res_s = match &r {
                 Ok(()) => "ok".to_string(),
                 Err(e) => format!("err:{}", e),
